@@ -578,7 +578,12 @@ def emit_section(section: Section, indent: int = 0, format_options: FormatOption
     if hasattr(section, "leading_comments"):
         lines.extend(_emit_leading_comments(section.leading_comments, indent, strip_comments))
 
-    section_line = f"{indent_str}\u00a7{section.section_id}::{section.key}"
+    # A name that was defaulted from a numeric id (\u00a71:: written without a name) cannot be written
+    # back as a name: the reader only accepts an identifier there. Keep it implicit.
+    section_name = section.key
+    if section_name == section.section_id and not (section_name[:1].isalpha() or section_name[:1] == "_"):
+        section_name = ""
+    section_line = f"{indent_str}\u00a7{section.section_id}::{section_name}"
     if section.annotation:
         section_line += f"[{section.annotation}]"
     lines.append(section_line)
